@@ -185,8 +185,47 @@ func FactOf(g Guard) Fact {
 func Facts(instr ssa.Instruction) []Fact {
 	gs := Guards(instr)
 	out := make([]Fact, 0, len(gs))
-	for _, g := range gs {
+	seen := map[ssa.Value]bool{}
+	var add func(g Guard, depth int)
+	add = func(g Guard, depth int) {
 		out = append(out, FactOf(g))
+		// a short-circuit condition kept as a value (`case a && b:` is built as phi[false, b]): when it is true it was
+		// reached through the one edge that is not the constant false, so b holds and so does everything that guards that
+		// edge (a among it); dually for `||` found false
+		phi, ok := g.Cond.(*ssa.Phi)
+		if !ok || depth > 3 || seen[phi] {
+			return
+		}
+		var want bool
+		switch {
+		case phi.Comment == "&&" && g.Branch:
+			want = false
+		case phi.Comment == "||" && !g.Branch:
+			want = true
+		default:
+			return
+		}
+		seen[phi] = true
+		idx := -1
+		for i, e := range phi.Edges {
+			if k, isC := e.(*ssa.Const); isC && k.Value != nil && k.Value.Kind() == constant.Bool && constant.BoolVal(k.Value) == want {
+				continue
+			}
+			if idx >= 0 {
+				return // more than one way to get this value
+			}
+			idx = i
+		}
+		if idx < 0 || idx >= len(phi.Block().Preds) {
+			return
+		}
+		add(Guard{Cond: phi.Edges[idx], Branch: g.Branch}, depth+1)
+		for _, g2 := range BlockGuards(phi.Block().Preds[idx]) {
+			add(g2, depth+1)
+		}
+	}
+	for _, g := range gs {
+		add(g, 0)
 	}
 	return out
 }
